@@ -71,13 +71,25 @@ def check_create_arcs(chk, rep, repo):
     rep.fn("ARCS-readout", fn, f"for l in {show(dom)}", direction is not None,
            "the read-out must visit exactly the ranks 0..k-1", line=ro.line)
     valid = ("cmp", "!=", *sorted([K("FLOAT_MAX"), ("idx", sc.D, r)], key=repr))
+    valid_lt = ("cmp", "<", ("idx", sc.D, r), K("FLOAT_MAX"))  # the same test for a distance (nothing exceeds FLOAT_MAX)
     d_r = ("idx", sc.D, r)
+    # argument validation (`if k < 1: raise ...`) dominates the whole body: those complements are not conditions of the steps
+    _raises = [e for e in w.events if e.kind == "raise"]
+    own = lambda gs: tuple((g, pol) for g, pol in gs if not any((g, not pol) in x.guards for x in _raises))
     body = [e for e in w.events if ro.lid in e.loops and e.kind in ("store", "call") and e.name not in ("builtin.range",)]
     for e in body:
         if e.kind == "call" and e.name in ("builtin.int",):
             continue
-        rep.ev("ARCS-valid", e, has_guard(e.guards, valid),
+        rep.ev("ARCS-valid", e, has_guard(e.guards, valid) or has_guard(e.guards, valid_lt),
                "read-out statement not guarded by distances[l] != FLOAT_MAX")
+        # ... and by nothing else: a filled rank is an arc whatever its length (zero-length arcs of duplicated samples too)
+        base_f = set(facts(ro.guards))
+        extra = [f for f in facts(e.guards) if f not in base_f and f not in (valid, valid_lt)
+                 and not (f[0] == "cmp" and f[1] in ("<", "<=") and f[3] == d_r and f[2] != ("const", 0))]
+        if extra:
+            rep.ev("ARCS-valid-only", e, False,
+                   f"the read-out of rank l is also conditional on '{show(extra[0])[:80]}': ranks that hold a neighbour are dropped "
+                   "(the sample keeps fewer than min(k, n-1) arcs, and not the smallest ones)")
     # accumulators
     accs = {
         "density bound": ("attr", G, "density"),
@@ -121,7 +133,7 @@ def check_create_arcs(chk, rep, repo):
                 ok_init = len(inits) >= 1 and all(e.loops == (sc.per.lid,) and e.guards == sc.per.guards for e in inits)
                 where = "for every node, before its read-out"
             else:
-                ok_init = len(inits) == 1 and not inits[0].loops and not inits[0].guards
+                ok_init = len(inits) == 1 and not inits[0].loops and not own(inits[0].guards)
                 where = "once at entry, before the scan"
             rep.fn("ARCS-init", fn, f"{name} is reset to 0 {where}", bool(ok_init),
                    f"the {name} is accumulated with '>' but never reset in this call: a value left by an earlier "
@@ -146,7 +158,7 @@ def check_create_arcs(chk, rep, repo):
     dens = ("attr", G, "density")
     fb = [e for e in w.events if e.kind == "store" and e.target == dens and e.seq > sc.per.last_seq]
     okf = len(fb) == 1 and fb[0].value in (("const", 1), ("const", 1.0)) and not fb[0].loops \
-        and facts(fb[0].guards) == (("cmp", "<", dens, ("const", 1e-05)),)
+        and facts(own(fb[0].guards)) == (("cmp", "<", dens, ("const", 1e-05)),)
     if local_density:
         okf = True  # the single store after the loops already carries the fallback (checked by the local view)
     rep.fn("ARCS-fallback", fn, "density bound falls back to 1 when below 1e-5, after the loops", okf,
@@ -324,6 +336,12 @@ def check_pdf(chk, rep, repo):
     tr_mx = [e for e in s_mx if e.loops == (per.lid,)]
     okmn = len(tr_mn) == 1 and tr_mn[0].value == pi and facts(tr_mn[0].guards) == (("cmp", "<", pi, mn),)
     okmx = len(tr_mx) == 1 and tr_mx[0].value == pi and facts(tr_mx[0].guards) == (("cmp", "<", mx, pi),)
+    # the same updates spelt `m = min(m, pdf[i])` / `M = max(M, pdf[i])`
+    from ..ir import mk_ext
+    if len(tr_mn) == 1 and not okmn:
+        okmn = tr_mn[0].value == mk_ext("min", [mn, pi]) and facts(tr_mn[0].guards) == facts(per.guards) and not tr_mn[0].aug
+    if len(tr_mx) == 1 and not okmx:
+        okmx = tr_mx[0].value == mk_ext("max", [mx, pi]) and facts(tr_mx[0].guards) == facts(per.guards) and not tr_mx[0].aug
     late = all(e.seq > divs[0].seq for e in tr_mn + tr_mx) if divs else False
     if not tr_mn and not tr_mx and detached is None:
         # the same tracking in a loop of its own over every node, after the pdf array is final
